@@ -300,7 +300,7 @@ class Analysis:
             recv, rk = self.o(f.value), self.k(f.value)
             inplace = any(k.arg == 'inplace' and isinstance(k.value, ast.Constant) and k.value.value is True for k in n.keywords)
             if name in MUTATORS or (name in INPLACE_KW and inplace):
-                self.write(recv, n, construct=f'{_root_text(f.value)}.{name}(...)')
+                self.write(recv, n, construct=f'{_root_text(f.value)}.{name}(...)', own=True)
                 return {Sub(r) for r in recv} if name in ('pop', 'setdefault') else {F}
             if name == 'to_numpy' or (name in ('__array__',)):
                 cp = any(k.arg == 'copy' and isinstance(k.value, ast.Constant) and k.value.value is True for k in n.keywords)
@@ -437,8 +437,12 @@ class Analysis:
         return out or {F}
 
     # ------------------------------------------------------------------ writes
-    def write(self, objs, node, via=None, construct=None, direct_ok=True):
+    def write(self, objs, node, via=None, construct=None, direct_ok=True, own=False):
+        """``own``: the write changes the object itself (d.pop(k), d[k] = v, del d[k], x += ..): a container display is then a fresh object of this
+        function - its elements are not written; without it (a callee that may reach into its argument) the elements of a display count as written"""
         construct = construct or _norm(node)
+        if own:
+            objs = {x for x in objs if x[0] != 'Lit'}
         for x in self.expand(objs):
             if x[0] == 'P' and direct_ok:
                 self.direct.add(x[1])
@@ -457,7 +461,7 @@ class Analysis:
                 objs = self.o(base.value)
             else:
                 objs = self.o(base)
-            self.write(objs, node, construct=_norm_target(tgt))
+            self.write(objs, node, construct=_norm_target(tgt), own=True)
         elif isinstance(tgt, ast.Attribute):
             objs = self.o(tgt.value)
             if ('SelfObj',) in objs:
@@ -549,13 +553,13 @@ class Analysis:
             self.o(s.value)
             if isinstance(s.target, ast.Name):
                 if self.kind.get(s.target.id) in ('nd', 'df', 'series', 'list', 'dict'):
-                    self.write(self.o(s.target), s, construct=f'{s.target.id} {_OP.get(type(s.op).__name__, "?")}= ...')
+                    self.write(self.o(s.target), s, construct=f'{s.target.id} {_OP.get(type(s.op).__name__, "?")}= ...', own=True)
             else:
                 self.store(s.target, s)
         elif isinstance(s, ast.Delete):
             for t in s.targets:
                 if isinstance(t, ast.Subscript):
-                    self.write(self.o(t.value), s, construct=f'del {_norm_target(t)}')
+                    self.write(self.o(t.value), s, construct=f'del {_norm_target(t)}', own=True)
         elif isinstance(s, ast.Expr):
             self.o(s.value)
         elif isinstance(s, ast.Return):
